@@ -37,7 +37,16 @@ def setup(mode):
         tmo.settings.set_thermo(chemsB, cache=True)
         thB = tmo.settings.get_thermo()
         tmo.settings.set_thermo(th)
-        _fx.update(th=th, thB=thB, CAS=[c.CAS for c in th.chemicals])
+        # a separately compiled package with the SAME IDs but other group / alias definitions
+        chemsX = tmo.Chemicals([tmo.Chemical(i, cache=False) for i in IDS])
+        tmo.settings.set_thermo(chemsX, cache=False)
+        thX = tmo.settings.get_thermo()
+        assert thX.chemicals is not th.chemicals
+        thX.chemicals.define_group(GROUP[0], ['Octane', 'Glucose'], [0.5, 0.5])
+        thX.chemicals.set_alias('Ethanol', ALIAS[1])
+        tmo.settings.set_thermo(th)
+        isolation.track(thX.chemicals._index_cache)
+        _fx.update(th=th, thB=thB, thX=thX, CAS=[c.CAS for c in th.chemicals])
         isolation.track(th.chemicals._index_cache)
         isolation.track(thB.chemicals._index_cache)
     if sym:
@@ -97,7 +106,7 @@ def distinct_keys(n, salt=0):
 def prepare_history(E, chems, imol, fills_c, fills_m):
     """real earlier lookups that fill / overflow the bounded caches"""
     kind = E.pick(['fresh'] + [f'chem-cache:{k}' for k in fills_c] + ([f'phase-cache:{k}' for k in fills_m] if imol is not None else [])
-                  + ['overlap-poisoning'], 'history')
+                  + ['overlap-poisoning', 'same-IDs-other-package'], 'history')
     if kind.startswith('chem-cache:'):
         for key in distinct_keys(int(kind.split(':')[1])):
             chems._get_index_and_kind(key)
@@ -105,6 +114,21 @@ def prepare_history(E, chems, imol, fills_c, fills_m):
         ph = imol._phases[0]
         for key in distinct_keys(int(kind.split(':')[1])):
             imol._get_index_data((ph, key))
+    elif kind == 'same-IDs-other-package':
+        # the same keys were looked up before through a package with identical IDs whose group and
+        # alias definitions differ (single- and multi-phase, same phases)
+        thX = _fx['thX']
+        sx = tmo.Stream(None, thermo=thX)
+        keys = ['fuel', 'Agua', ('Water', 'fuel'), ('fuel', 'Glucose', 'Agua'), ['Ethanol', 'Agua'], ('fuel', 'Water')]
+        for key in keys:
+            sx.imol[key]
+        if imol is not None:
+            mx = tmo.MultiStream(None, thermo=thX, phases=imol._phases)
+            for key in keys:
+                mx.imol[key]
+                for ph in imol._phases:
+                    mx.imol[ph, key]
+                mx.imol[..., key]
     elif kind == 'overlap-poisoning':
         # a stream of another package (other order) is mixed / copied in: index_overlap memoises
         # CAS tuples in THIS package's lookup cache
